@@ -209,7 +209,9 @@ class Issue:
             "issue_severity": self.severity,
             "issue_cwe": self.cwe.as_dict(),
             "issue_confidence": self.confidence,
-            "issue_text": self.text.encode("utf-8").decode("utf-8"),
+            "issue_text": self.text.encode("utf-8", "backslashreplace").decode(
+                "utf-8"
+            ),
             "line_number": self.lineno,
             "line_range": self.linerange,
             "col_offset": self.col_offset,
